@@ -230,4 +230,166 @@ theorem weight_ranges_of_encoded_tensor (cfg : WeightLayout.Cfg) (offsets : List
   let hf := WeightLayout.encodeTensor_facts cfg offsets out h
   ⟨fun r hr => (hf.good.rng r hr).num, hf.good.aligned⟩
 
+/-! ## (d) the clamp of a RELU-family activation
+
+`specBound fo s z v = z + round_away(float32(v) / float32(s))` is TensorFlow Lite's `CalculateActivationRangeQuantized`
+applied to one bound; with the exact float operations (`Handlers/NpuOpBuild.floatOps`, `FloatExact.qdiv`) it is
+`NpuOpSpec.quantBound`, the function `Spec/NpuOpBuild.activationRangeGen` intersects with the type range, and the checker
+compares it with `Requant.activationRange` on every real operation with RELU / RELU6 / RELU_N1_TO_1.
+`RoundTrip fo s k q` — quantising `s * q` with `s` gives `q` back — is the one fact about floats the statements need (an
+explicit hypothesis: it holds of IEEE arithmetic for every |q| < 2^22 and normal `s`; not proved here, evaluated on every
+real operation by the Spec checker). -/
+
+/-- **Convolution / depthwise / pooling** (everything `set_common_op_fields` builds, before the elementwise override):
+    for a RELU-family activation on an OFM tensor with quantisation `q`, the bounds that reach the C06 record — quantised
+    with the quantisation the operation programs for its OFM, whose zero point may be forced to 0 — are the bounds of the
+    tensor's own quantisation, `q.zeroPoint + round(v / q.scale)`; in particular the zero point is neither lost when the
+    register is forced to 0 nor added twice when it is not (the two defects repaired in a125c1d). -/
+theorem activation_clamp_spec (fo : FloatOps) (c : StripeD) (arch : ArchD) (kind : Kind) (b : BlockB) (o : Oracle) (r : Built)
+    (hb : setCommon fo c arch kind = .ok b) (hr : toRecord fo b o = .ok r)
+    (a : ActD) (ha : c.op.activation = some a) (hrelu : a.faf.isRelu = true)
+    (q : Quant) (hq : c.ofm.quant = some q) (hoq : c.op.ofmQuant = some q) (hforced : c.op.forcedOutputQuant = none)
+    (hrt : ∀ x k, (a.min = some x ∨ a.max = some x) → fo.qdiv x (q.scale.getD fo.one) = some k →
+      RoundTrip fo (q.scale.getD fo.one) q.zpKind (q.zeroPoint + k)) :
+    ∃ blk, r.op = .block blk ∧
+      blk.activation = some ⟨0, a.min.bind (specBound fo q.scale q.zeroPoint), a.max.bind (specBound fo q.scale q.zeroPoint),
+                             a.lutIndex⟩ := by
+  obtain ⟨hofm, hact⟩ := setCommon_act_ofm fo c arch kind b hb
+  obtain ⟨fm0, hofmeq⟩ := commonOfm_spec c arch b.ofm hofm
+  -- the OFM quantisation the operation programs
+  have hoq' : getOfmQuant c c.ofm = some ⟨q.scale, if useZeroPoint0 c c.ofm.dtype false then 0 else q.zeroPoint⟩ := by
+    simp [getOfmQuant, hforced, hq]
+  rw [hoq'] at hofmeq
+  have hh : b.ofm.fm.hasQuant = true := by rw [hofmeq]; rfl
+  have hs : b.ofm.scale = q.scale := by rw [hofmeq]; rfl
+  have hz : b.ofm.fm.zeroPoint = if useZeroPoint0 c c.ofm.dtype false then 0 else q.zeroPoint := by rw [hofmeq]; rfl
+  have hop : actOpOf a.faf = .ok 0 := by
+    cases hf : a.faf <;> simp [hf, Faf.isRelu] at hrelu <;> simp [actOpOf, Faf.isRelu]
+  unfold toRecord at hr
+  split at hr
+  · cases hr
+  · rename_i qmin hqmin
+    split at hr
+    · cases hr
+    · rename_i qmax hqmax
+      split at hr
+      · cases hr
+      · injection hr with hr
+        subst hr
+        refine ⟨_, rfl, ?_⟩
+        simp only [Option.some.injEq, Activation.mk.injEq]
+        rw [hh, hs, hz] at hqmin hqmax
+        unfold createNpuActivation at hact
+        simp only [ha, hop] at hact
+        by_cases hzp : useZeroPoint0 c c.ofm.dtype false = true
+        · simp only [hzp, Bool.and_true, decide_true, ↓reduceIte, hoq] at hact hqmin hqmax
+          by_cases hz0 : q.zeroPoint = 0
+          · simp only [hz0, ne_eq, not_true_eq_false, ↓reduceIte] at hact
+            injection hact with hact
+            rw [← hact] at hqmin hqmax ⊢
+            simp only at hqmin hqmax ⊢
+            refine ⟨trivial, ?_, ?_, trivial⟩
+            · rw [hz0]; exact quantiseOpt_eq fo _ _ _ _ hqmin
+            · rw [hz0]; exact quantiseOpt_eq fo _ _ _ _ hqmax
+          · simp only [ne_eq, hz0, not_false_eq_true, ↓reduceIte] at hact
+            split at hact
+            · rename_i mn mx hmn hmx
+              injection hact with hact
+              rw [← hact] at hqmin hqmax ⊢
+              simp only at hqmin hqmax ⊢
+              refine ⟨trivial, ?_, ?_, trivial⟩
+              · exact preAdd_quantise fo q.scale q.zpKind q.zeroPoint a.min mn qmin hmn
+                  (fun x k hx hk => hrt x k (Or.inl hx) hk) hqmin
+              · exact preAdd_quantise fo q.scale q.zpKind q.zeroPoint a.max mx qmax hmx
+                  (fun x k hx hk => hrt x k (Or.inr hx) hk) hqmax
+            · cases hact
+            · cases hact
+        · have hzp' : useZeroPoint0 c c.ofm.dtype false = false := by simpa using hzp
+          simp only [hzp', Bool.and_false, Bool.false_eq_true, ↓reduceIte] at hact hqmin hqmax
+          injection hact with hact
+          rw [← hact] at hqmin hqmax ⊢
+          simp only at hqmin hqmax ⊢
+          exact ⟨trivial, quantiseOpt_eq fo _ _ _ _ hqmin, quantiseOpt_eq fo _ _ _ _ hqmax, trivial⟩
+
+/-- **Elementwise operations whose OFM scale is overridden** (LEAKY_RELU by `alpha`, ABS by the scale ratio, the resize-as-ADD
+    case): `create_npu_elementwise_op` replaces the scale of the OFM quantisation only to program `OFM_SCALE`; the clamp
+    bounds are re-expressed in the overriding scale so that they quantise to the very same integers as before
+    (the defect repaired in d77406b quantised them with `alpha`). -/
+theorem activation_clamp_override_preserved (fo : FloatOps) (op : OpD) (b : BlockB) (u : EwUpd)
+    (h : ewFinish fo op b = .ok u) (hrelu : b.act.opType = 0) (hq : b.ofm.fm.hasQuant = true)
+    (hsc : b.ofm.scale.isSome = true) (hcongr : ∀ a b x, fo.eq a b = true → fo.qdiv x a = fo.qdiv x b)
+    (qmin qmax : Option Int)
+    (hmin : quantiseOpt fo b.act.min true b.ofm.scale b.ofm.fm.zeroPoint = .ok qmin)
+    (hmax : quantiseOpt fo b.act.max true b.ofm.scale b.ofm.fm.zeroPoint = .ok qmax)
+    (hrt : ∀ os x k, (b.act.min = some x ∨ b.act.max = some x) → fo.qdiv x (b.ofm.scale.getD fo.one) = some k →
+      RoundTrip fo os 0 k) :
+    u.ofm.fm.hasQuant = true ∧ u.ofm.fm.zeroPoint = b.ofm.fm.zeroPoint ∧ u.act.opType = 0 ∧
+    quantiseOpt fo u.act.min true u.ofm.scale u.ofm.fm.zeroPoint = .ok qmin ∧
+    quantiseOpt fo u.act.max true u.ofm.scale u.ofm.fm.zeroPoint = .ok qmax := by
+  -- a bound rewritten by `rescaleBound` quantises, in the overriding scale, to what it quantised to before
+  have key : ∀ (os s : Fl) (v w : Option Fl) (r : Option Int), b.ofm.scale = some s →
+      (v = b.act.min ∨ v = b.act.max) →
+      rescaleBound fo os s b.ofm.fm.zeroPoint v = .ok w →
+      quantiseOpt fo v true b.ofm.scale b.ofm.fm.zeroPoint = .ok r →
+      quantiseOpt fo w true (some os) b.ofm.fm.zeroPoint = .ok r := by
+    intro os s v w r hs hv hw hr
+    unfold rescaleBound at hw
+    cases v with
+    | none =>
+      injection hw with hw; subst hw
+      simpa [quantiseOpt] using hr
+    | some x =>
+      simp only [quantiseF32] at hw
+      have hx : b.act.min = some x ∨ b.act.max = some x := by rcases hv with hv | hv <;> simp [← hv]
+      cases hk : fo.qdiv x s with
+      | none => simp [hk] at hw
+      | some k =>
+        simp only [hk] at hw
+        injection hw with hw; subst hw
+        have hrt' := hrt os x k hx (by simpa [hs] using hk)
+        unfold RoundTrip at hrt'
+        simp only [quantiseOpt, quantise, ↓reduceIte, quantiseF32, hs, Option.getD_some, hk] at hr ⊢
+        have : b.ofm.fm.zeroPoint + k - b.ofm.fm.zeroPoint = k := by omega
+        simp only [this, hrt']
+        exact hr
+  unfold ewFinish at h
+  split at h
+  · cases h
+  · -- explicit scaling
+    split at h
+    · split at h
+      · injection h with h; subst h
+        exact ⟨hq, rfl, hrelu, hmin, hmax⟩
+      · cases h
+    · cases h
+  · injection h with h; subst h
+    exact ⟨hq, rfl, hrelu, hmin, hmax⟩
+  · rename_i os _
+    simp only [hq, Bool.not_true, Bool.false_eq_true, ↓reduceIte] at h
+    split at h
+    · rename_i s hs
+      by_cases hc : (b.act.opType = 0 && !fo.eq os s) = true
+      · simp only [hc, ↓reduceIte] at h
+        split at h
+        · rename_i mn mx hmn hmx
+          injection h with h; subst h
+          exact ⟨rfl, rfl, hrelu, key os s _ mn qmin hs (Or.inl rfl) hmn hmin, key os s _ mx qmax hs (Or.inr rfl) hmx hmax⟩
+        · cases h
+        · cases h
+      · simp only [hc, Bool.false_eq_true, ↓reduceIte] at h
+        injection h with h; subst h
+        -- no rewriting: the overriding scale equals the scale of the OFM (`output_scale == ofm_quant.scale_f32`)
+        have he : fo.eq os s = true := by simpa [hrelu] using hc
+        have hsame : ∀ v r, quantiseOpt fo v true b.ofm.scale b.ofm.fm.zeroPoint = .ok r →
+            quantiseOpt fo v true (some os) b.ofm.fm.zeroPoint = .ok r := by
+          intro v r hr
+          cases v with
+          | none => simpa [quantiseOpt] using hr
+          | some x =>
+            simp only [quantiseOpt, quantise, ↓reduceIte, quantiseF32, hs, Option.getD_some] at hr ⊢
+            rw [hcongr os s x he]; exact hr
+        exact ⟨rfl, rfl, hrelu, hsame _ _ hmin, hsame _ _ hmax⟩
+    · rename_i hs
+      rw [hs] at hsc; cases hsc
+
 end VelaVerif.Props.C06Build
